@@ -139,6 +139,12 @@ func c03Property(t *rapid.T) {
 		qcls = append(qcls, "unicode", "unicode")
 	}
 	q, qc := gen.Query(t, cmds, qcls)
+	for _, tk := range gen.Tokens(cmds) {
+		if len(tk) > 64 && rapid.IntRange(0, 2).Draw(t, "ask-long-word") == 0 {
+			q = rapid.SampledFrom([]string{tk, tk + " " + q}).Draw(t, "long-word-query") // a word of more than 64 letters (it may have a twin that differs only at its end)
+			break
+		}
+	}
 	heavy := gen.HeavyWord(cmds)
 	if heavy != "" && rapid.IntRange(0, 2).Draw(t, "ask-heavy") > 0 {
 		q = rapid.SampledFrom([]string{heavy, heavy + " " + q}).Draw(t, "heavy-query")
